@@ -1,8 +1,8 @@
 ---------------------------- MODULE Labelmap_sim ----------------------------
-EXTENDS Labelmap, LabelGeom, Json
+EXTENDS LabelmapReads, Json
 
 Key == [sv |-> sv, mp |-> mp, nxt |-> nxt]
-EmitObs == PrintT(ToJson([k |-> Key, d |-> depth, obs |-> Obs]))
+EmitObs == PrintT(ToJson([k |-> Key, d |-> depth, obs |-> Obs, rd |-> Reads]))
 
 \* Simulation: a history variable carries the behaviour; complete behaviours are printed when
 \* the depth bound is reached (TLC evaluates invariants on every generated successor, so each
